@@ -53,12 +53,19 @@ Run ==
                 /\ waitq' = IF StatusV(pc'[p]) = "blocked" THEN Append(waitq, p) ELSE waitq
            ELSE UNCHANGED <<running, hist, waitq>>
 
-GNext == Release \/ Run
+(* The controller cancels the context of a call that is waiting for the mutex *)
+(* (kind 3 in the schedule; the call stays where it is).                       *)
+CancelStep ==
+    /\ running = 0
+    /\ \E p \in Procs : Cancel(p) /\ hist' = Append(hist, <<p, 3, "blocked">>)
+    /\ UNCHANGED <<running, waitq>>
+
+GNext == Release \/ Run \/ CancelStep
 GSpec == GInit /\ [][GNext]_gvars
 
 (* The order in which the records' lines appear. *)
 Order == [i \in 1..Len(LinesOf(stream)) |-> LinesOf(stream)[i][1] \div 100]
 
 Emit == (AllDone /\ running = 0) =>
-            CSVWrite("%1$s", <<ToJson([gates |-> NGates, big |-> [p \in Procs |-> IF BigRec[p] THEN 1 ELSE 0], fault |-> Fault, sched |-> hist, order |-> Order])>>, "hybrid_schedules.ndjson")
+            CSVWrite("%1$s", <<ToJson([gates |-> NGates, big |-> [p \in Procs |-> IF BigRec[p] THEN 1 ELSE 0], fault |-> Fault, ctx |-> Ctx, sched |-> hist, order |-> Order])>>, "hybrid_schedules.ndjson")
 =============================================================================
